@@ -676,10 +676,14 @@ func checkSliceCanon(p *Prog, r *Report) {
 	r.fn(funcName(f))
 	oa := &orderAnalysis{p: p, r: r, tainted: map[*ssa.Function]bool{}}
 	n := 0
-	eachInstr(f, func(ins ssa.Instruction) {
+	var all []ssa.Instruction
+	for _, g := range append([]*ssa.Function{f}, stringHelpers(f)...) {
+		eachInstr(g, func(ins ssa.Instruction) { all = append(all, ins) })
+	}
+	for _, ins := range all {
 		bo, ok := ins.(*ssa.BinOp)
 		if !ok || (bo.Op != token.EQL && bo.Op != token.NEQ) {
-			return
+			continue
 		}
 		elem := func(v ssa.Value) (ssa.Value, ssa.Value, bool) {
 			ld, ok := v.(*ssa.UnOp)
@@ -695,13 +699,13 @@ func checkSliceCanon(p *Prog, r *Report) {
 		a, ia, ok1 := elem(bo.X)
 		b, ib, ok2 := elem(bo.Y)
 		if !ok1 || !ok2 || ia != ib {
-			return
+			continue
 		}
 		n++
 		for _, side := range []ssa.Value{a, b} {
 			sorted := oa.sortedBefore(side, bo.Block(), bo)
 			r.decide(sorted, "C10.set-equality", "checkSlice:compared-list:"+shorten(pathOf(side, 0)), p.pos(bo.Pos()), "compared after being sorted", "checkSlice compares a list element by element that was not sorted before (the other one was, or a sorted copy was made and the original is compared): equality of ID sets depends on the order in which the IDs are listed")
 		}
-	})
+	}
 	r.floor("elementwise comparisons in checkSlice", n, 1)
 }
